@@ -671,6 +671,7 @@ class Oracles:
         pre_reqs = [r for r in pm.reqs if r.accepted]
         kw = {"return_exceptions": True} if re_ else {}
         raised: Optional[BaseException] = None
+        pm.close_active = getattr(pm, "close_active", 0) + 1  # type: ignore[attr-defined]
         try:
             await pm.pool.gather_and_close(**kw)
         except asyncio.CancelledError:
@@ -681,6 +682,8 @@ class Oracles:
             raise
         except BaseException as e:
             raised = e
+        finally:
+            pm.close_active -= 1  # type: ignore[attr-defined]
         if w.teardown:
             return
         self.forget_epoch += 1
@@ -696,6 +699,11 @@ class Oracles:
                 w.fail({"C08"}, "close/raised-without-fault", repr(raised))
             if self.is_injected(pm, raised):
                 pm.close_failed = True  # type: ignore[attr-defined]   (legitimately not closed: completeness is not owed)
+                if pm.close_active == 0 and not pm.closed:  # type: ignore[attr-defined]
+                    # the call is over and has not closed the pool: what remains of it is its lock(), which unlock() undoes (C09)
+                    pm.closing = False
+                    pm.locked = True
+                    w.label("close:failed-pool-stays-locked")
             return
         # returned normally: snapshot of the world in this very step
         w.label("close:returned")
